@@ -269,6 +269,8 @@ def run(tier):
                     continue
             reported.add(k)
             ck.divergence(sig, record)
+    # cross-layer ordering of the composed Stack model on the same recordings (EXT only)
+    ck.cov["stack_ordering_traces_checked"] = lc.stack_pass(ck, vlib, runs, lambda r: r[0]["scenario"]["cfg"]["mode"], tier)
     ck.cov["traces_validated_against_impl"] = len(results)
     ck.cov["evaluations"] = len(runs)
     ck.cov["distinct_nontrivial"] = len(nontrivial)
